@@ -119,9 +119,20 @@ class Abs:
             if dn in self.summaries or dn in self.types:
                 return ("callable", dn)
             base = self.ev(e.value)
+            if getattr(base, "_abs_native", False):
+                try:
+                    v = getattr(base, e.attr)
+                except AttributeError:
+                    raise Raised("AttributeError(%s)" % e.attr)
+                return ("py", v) if callable(v) and not getattr(v, "_abs_native", False) else v
             return self.getattr(base, e.attr, e)
         if isinstance(e, ast.Subscript):
             base = self.ev(e.value)
+            if getattr(base, "_abs_native", False):
+                try:
+                    return base[self._native_key(e.slice)]
+                except IndexError as ex:
+                    raise Raised("IndexError(%s)" % ex)
             if isinstance(e.slice, ast.Slice):
                 lo = self.ev(e.slice.lower) if e.slice.lower is not None else None
                 hi = self.ev(e.slice.upper) if e.slice.upper is not None else None
@@ -142,7 +153,7 @@ class Abs:
             v = self.ev(e.operand)
             if isinstance(e.op, ast.Not):
                 return not self.truth(v)
-            if isinstance(e.op, ast.USub) and isinstance(v, (int, float)):
+            if isinstance(e.op, ast.USub) and (isinstance(v, (int, float)) or getattr(v, "_abs_native", False) or type(v).__name__ == "Rat"):
                 return -v
             raise Undecided("unary op on %r" % (v,))
         if isinstance(e, ast.BoolOp):
@@ -195,6 +206,20 @@ class Abs:
             return "<fstring>"
         raise Undecided("expression %s" % type(e).__name__)
 
+    def _native_key(self, sl):
+        def one(x):
+            if isinstance(x, ast.Slice):
+                return slice(self.ev(x.lower) if x.lower is not None else None,
+                             self.ev(x.upper) if x.upper is not None else None,
+                             self.ev(x.step) if x.step is not None else None)
+            v = self.ev(x)
+            if isinstance(v, range):
+                v = list(v)
+            return v
+        if isinstance(sl, ast.Tuple):
+            return tuple(one(x) for x in sl.elts)
+        return one(sl)
+
     def _comp(self, e, gi, acc):
         if gi == len(e.generators):
             acc.append(self.ev(e.elt))
@@ -217,6 +242,8 @@ class Abs:
         if isinstance(v, dict):
             return list(v.keys())
         if isinstance(v, (list, tuple, str, range)):
+            return list(v)
+        if getattr(v, "_abs_native", False):
             return list(v)
         raise Undecided("iteration over %r" % (v,))
 
@@ -273,6 +300,9 @@ class Abs:
     def binop(self, op, a, b):
         if isinstance(a, Tok) or isinstance(b, Tok):
             return Tok("(%r%s%r)" % (a, type(op).__name__, b))
+        if isinstance(op, ast.MatMult):
+            from .symarr import dot as _dot
+            return _dot(a, b)
         try:
             if isinstance(op, ast.Add):
                 return a + b
@@ -353,6 +383,8 @@ class Abs:
                 return len(args[0])
             if isinstance(args[0], Obj) and "__len__" in args[0].attrs:
                 return args[0].attrs["__len__"]
+            if getattr(args[0], "_abs_native", False):
+                return len(args[0])
             raise Raised("TypeError(len)")
         if dn == "range":
             return list(range(*args))
@@ -391,7 +423,22 @@ class Abs:
         if dn == "print":
             return None
         if dn in ("int", "float"):
-            return args[0]
+            v = args[0]
+            if isinstance(v, (int, float)) and not isinstance(v, bool):
+                return int(v) if dn == "int" else float(v)
+            return v
+        if dn == "map":
+            fn = args[0]
+            seqs = [self._iter(a) for a in args[1:]]
+            return [self.apply(fn, list(items), {}) for items in zip(*seqs)]
+        if dn in ("functools.reduce", "reduce"):
+            fn, seq = args[0], self._iter(args[1])
+            if not seq:
+                raise Raised("TypeError(reduce of empty sequence)")
+            acc = seq[0]
+            for x in seq[1:]:
+                acc = self.apply(fn, [acc, x], {})
+            return acc
         if dn in ("all", "any"):
             vals = [self.truth(x) for x in self._iter(args[0])]
             return all(vals) if dn == "all" else any(vals)
@@ -438,6 +485,8 @@ class Abs:
                 raise Undecided("no summary for %s" % f[1])
             if tag == "bound":
                 return self.summaries[f[1]](f[2], *args, **kw)
+            if tag == "py":
+                return f[1](*args, **kw)
             if tag == "sampler":
                 return Tok("draw(%s)" % f[1])
             if tag == "lambda":
@@ -542,7 +591,13 @@ class Abs:
                 raise Undecided("attribute store on %r" % (base,))
         elif isinstance(t, ast.Subscript):
             base = self.ev(t.value)
-            k = self.ev(t.slice)
+            k = None if getattr(base, "_abs_native", False) else self.ev(t.slice)
+            if getattr(base, "_abs_native", False):
+                try:
+                    base[self._native_key(t.slice)] = v
+                except IndexError as ex:
+                    raise Raised("IndexError(%s)" % ex)
+                return
             if isinstance(base, dict):
                 base[self._key(k)] = v
             elif isinstance(base, list):
